@@ -119,6 +119,7 @@ const (
 	OBv2Nat // BV -> Int (unsigned)  (use sparingly)
 	ONat2Bv // Int -> BV
 	OLinEq  // xor of LinAtoms = Val
+	OConstArr // constant array, all elements Val
 )
 
 type Term struct {
@@ -1498,7 +1499,16 @@ func Select(arr, idx *Term) *Term {
 		}
 		break
 	}
+	if arr.Op == OConstArr {
+		return BVC(8, arr.Val)
+	}
 	return mk(OSelect, BV(8), arr, idx)
+}
+
+func ConstArr(v uint64) *Term {
+	t := mk(OConstArr, Arr32)
+	t.Val = v & 0xff
+	return t
 }
 
 func Store(arr, idx, v *Term) *Term {
